@@ -59,6 +59,9 @@ type sop struct {
 	Merge bool     `json:"merge,omitempty"`
 	TS    int      `json:"ts,omitempty"`
 	Twice bool     `json:"twice,omitempty"`
+	// gc: do NOT let the pending post-rotation flushers run first (the pass meets a just rotated file whose tail is
+	// still in the write buffer; rotflush "manual" scenarios only)
+	KeepRot bool `json:"keeprot,omitempty"`
 	At    []atSpec `json:"at,omitempty"`
 	Free  freeSpec `json:"free,omitempty"`
 	P     string   `json:"p,omitempty"`
@@ -585,10 +588,12 @@ func (r *runner) step(i int, o *sop) (e ev, stop bool) {
 	case "gc":
 		// sequential family: no rotation flush is pending when GC is requested (the race
 		// "GC over a just rotated, not yet flushed file" belongs to the schedule family)
-		for c := range r.pendingRot {
-			ok := r.releaseRot(c, true)
-			vl.emit(ev{"a": "RotFlush", "l": 1, "p": "rotf" + strconv.Itoa(c), "c": c, "ran": ok})
-			delete(r.pendingRot, c)
+		if !o.KeepRot {
+			for c := range r.pendingRot {
+				ok := r.releaseRot(c, true)
+				vl.emit(ev{"a": "RotFlush", "l": 1, "p": "rotf" + strconv.Itoa(c), "c": c, "ran": ok})
+				delete(r.pendingRot, c)
+			}
 		}
 		vs.setProc("gc")
 		e["a"], e["p"], e["begin"], e["end"], e["merge"] = "GC", "gc", o.Begin, o.End, o.Merge
